@@ -25,6 +25,7 @@ JudgeFinal(e) ==
     ELSE /\ Check(e, "Shape", Len(e.w) = Len(fs.v0) /\ \A s \in DOMAIN e.w : Len(e.w[s]) = Len(fs.v0[s]))
          /\ (Len(e.w) = Len(fs.v0) /\ \A s \in DOMAIN e.w : Len(e.w[s]) = Len(fs.v0[s])) =>
               /\ Check(e, "OrderRestored", \A s \in DOMAIN e.w : OrderRestored(fs.v0[s], fs.u[s], e.w[s]))
+              /\ Check(e, "AllelesKept", \A s \in DOMAIN e.w : AllelesKept(fs.v0[s], fs.u[s], e.w[s]))
               /\ Check(e, "SetOfCoveringReads", \A s \in DOMAIN e.w : SetOfCoveringReads(fs.reads, fs.b, s, fs.u[s], e.w[s]))
               /\ Check(e, "PrephasedUntouched", \A s \in DOMAIN e.w : PrephasedUntouched(fs.u[s], e.w[s]))
 
